@@ -73,6 +73,10 @@ def sanitize(s):
     return re.sub(r"[^A-Za-z0-9_.-]+", "_", s)[:80]
 
 
+def sanitize_name(rp):
+    return sanitize(f"{rp['kind']}-{rp['access']}-{rp['func']}")
+
+
 def run_property(prop, tier, seed, workers=None, replay=None, keep_logs=False, quiet=False):
     t0 = time.time()
     mod = importlib.import_module("vlib.props." + prop.lower())
@@ -102,6 +106,7 @@ def run_property(prop, tier, seed, workers=None, replay=None, keep_logs=False, q
     wd = max(120.0, budget * 4)
     logdir = tempfile.mkdtemp(prefix=f"verif-{prop}-", dir=os.environ.get("VERIF_TMP", "/var/tmp"))
     procs = []
+    inconclusive = []
     if replay:
         nworkers = 1
     for w in range(nworkers):
@@ -112,8 +117,31 @@ def run_property(prop, tier, seed, workers=None, replay=None, keep_logs=False, q
             cmd += ["--case-file", os.path.abspath(replay)]
         errf = open(os.path.join(logdir, f"w{w}.err"), "w")
         procs.append((w, out, errf, subprocess.Popen(cmd, cwd=VERIF, env=env, stdout=errf, stderr=errf)))
+    # extra worker groups, e.g. the sanitizer-instrumented build riding on a sub-stream of the same cases
+    san_info = []
+    san_workers = {}
+    for gi, grp in enumerate([] if replay else getattr(mod, "GROUPS", {}).get(tier, [])):
+        from vlib import sanitize as vsan
+        ginfo = vbuild.build(grp.get("flavour", "plain"))
+        genv = child_env(ginfo["dir"], extra_env)
+        if grp.get("flavour") == "asan":
+            se = vsan.asan_env(logdir, tag="asan-" + grp["name"])
+            if se is None:
+                inconclusive.append("libasan not found; sanitizer group could not run")
+                continue
+            genv.update(se)
+            san_info.append(grp["name"])
+            for w in range(grp.get("workers", 1)):
+                san_workers[f"g{gi}_{w}"] = grp["name"]
+        gn = grp.get("workers", 1)
+        for w in range(gn):
+            wid = f"g{gi}_{w}"
+            out = os.path.join(logdir, f"w{wid}.jsonl")
+            cmd = [PY, "-u", "-m", "vlib.worker", prop, "--tier", tier, "--seed", str(seed), "--worker", str(w),
+                   "--nworkers", str(gn), "--out", out, "--budget", str(budget), "--group", grp["name"]]
+            errf = open(os.path.join(logdir, f"w{wid}.err"), "w")
+            procs.append((wid, out, errf, subprocess.Popen(cmd, cwd=VERIF, env=genv, stdout=errf, stderr=errf)))
 
-    inconclusive = []
     deadline = time.time() + wd
     for w, out, errf, p in procs:
         try:
@@ -159,6 +187,10 @@ def run_property(prop, tier, seed, workers=None, replay=None, keep_logs=False, q
 
     # a worker that died (segfault, abort, os._exit) while running a case: let the module decide
     for c in crashed:
+        if str(c["worker"]).startswith("g") and c["worker"] in san_workers:
+            from vlib import sanitize as vsan
+            if vsan.log_has_verdict(logdir, "asan-" + san_workers[c["worker"]]):
+                continue  # the sanitizer report is the verdict; the later death of that process is its consequence
         if c["case"] is not None and c["returncode"] not in (None, -9):
             rec = dict(case=c["case"], hash="crash", ok={}, skips={}, observed={}, notes=[], violations=[dict(
                 check="process", key=f"{prop}/process-died", what=f"worker died (rc={c['returncode']}) while running a case",
@@ -171,6 +203,25 @@ def run_property(prop, tier, seed, workers=None, replay=None, keep_logs=False, q
         else:
             inconclusive.append(f"worker {c['worker']} ended without a summary (rc={c['returncode']}): {c['stderr'][-400:]}")
 
+    san_leads = []
+    for gname in san_info:
+        from vlib import sanitize as vsan
+        reports = vsan.parse_asan_logs(logdir, tag="asan-" + gname)
+        for rp_ in reports:
+            if rp_["verdict"]:
+                keep = os.path.join(VERIF, "replay", f"{prop}-asan-{sanitize_name(rp_)}.log")
+                try:
+                    shutil.copy(rp_["log"], keep)
+                except OSError:
+                    keep = rp_["log"]
+                records.append(dict(case=dict(group=gname, sanitizer_log=keep), hash="asan-" + sanitize_name(rp_), ok={}, skips={},
+                                    observed={}, notes=[], violations=[dict(
+                                        check="asan", key=f"{prop}/asan:{rp_['kind']}:{rp_['access']}:{rp_['func']}",
+                                        what=f"AddressSanitizer {rp_['kind']} ({rp_['access']}) in {rp_['func']} ({rp_['file']}), {rp_['count']}x",
+                                        detail=dict(report=rp_["text"][:1800]))]))
+            else:
+                san_leads.append(dict(kind=rp_["kind"], access=rp_["access"], func=rp_["func"], file=rp_["file"], count=rp_["count"]))
+        san_leads.extend(dict(ubsan=l) for l in vsan.parse_ubsan_logs(logdir)[:30])
     if hasattr(mod, "post"):
         try:
             records.extend(mod.post(records, tier, seed) or [])
@@ -260,6 +311,7 @@ def run_property(prop, tier, seed, workers=None, replay=None, keep_logs=False, q
         workers=dict(n=nworkers, truncated_by_budget=truncated, crashed=len(crashed)),
         build=dict(flavour=flavour, overlay=overlay_dir, rebuilt=binfo["built"],
                    modules_loaded_from_overlay=sorted({m for d in dones for m in d.get("overlay", {})})),
+        sanitizer=dict(groups=san_info, leads=san_leads),
         exhaustive=bool(getattr(mod, "EXHAUSTIVE", {}).get(tier, False)) and not truncated,
     )
     if hasattr(mod, "evidence_extra"):
